@@ -76,6 +76,13 @@ class MinPathCoverCycles(walkmodel.AbstractWalkModelDiGraph):
 
         """
 
+        # The caller's arguments, forwarded unchanged to the k-path-cover models in solve()
+        self.G_input = G
+        self.subset_constraints_input = subset_constraints
+        self.elements_to_ignore_input = elements_to_ignore
+        self.additional_starts_input = additional_starts
+        self.additional_ends_input = additional_ends
+
         # Handling node-weighted graphs
         self.cover_type = cover_type
         if self.cover_type == "node":
@@ -148,14 +155,17 @@ class MinPathCoverCycles(walkmodel.AbstractWalkModelDiGraph):
             if "time_limit" in i_solver_options:
                 i_solver_options["time_limit"] = self.time_limit - self.solve_time_elapsed
 
+            # kPathCoverCycles builds its own internal (node-expanded) graph, so it must
+            # receive the caller's graph and arguments, not the internal ones
             model = kpathcovercycles.kPathCoverCycles(
-                        G=self.G,
+                        G=self.G_input,
                         k=i,
-                        subset_constraints=self.subset_constraints,
+                        cover_type=self.cover_type,
+                        subset_constraints=self.subset_constraints_input,
                         subset_constraints_coverage=self.subset_constraints_coverage,
-                        elements_to_ignore=self.edges_to_ignore,
-                        additional_starts=self.additional_starts,
-                        additional_ends=self.additional_ends,
+                        elements_to_ignore=self.elements_to_ignore_input,
+                        additional_starts=self.additional_starts_input,
+                        additional_ends=self.additional_ends_input,
                         optimization_options=self.optimization_options,
                         solver_options=i_solver_options,
                     )
